@@ -502,6 +502,50 @@ Proof.
   end.
 Qed.
 
+(* ------------------------------------------------------------------ load(): the dispatch is total and as documented *)
+
+Definition plain_or_available (k : kind) : Prop :=
+  match k with KPlain => True | KCodec c => codec_available c = true | KCompat => False end.
+
+Lemma load_dispatch : forall s mmap na k, plain_or_available k ->
+  let native := match na with NAuto => negb mmap | NTrue => true | NFalse => false end in
+  (* the only error: native byte order demanded together with an mmap_mode *)
+  (load_decide s mmap na k = Raise ValueError <-> (na = NTrue /\ mmap = true)) /\
+  (* otherwise a plan *)
+  ((na = NTrue /\ mmap = true) \/ exists p, load_decide s mmap na k = Ok p /\
+     lp_native p = native /\
+     (* memory mapping happens exactly for: a path, an uncompressed file, an mmap_mode *)
+     (lp_mmap p = true <-> s = SPath /\ k = KPlain /\ mmap = true) /\
+     (* a memory-mapped load never coerces the byte order (the assert in NumpyArrayWrapper.read cannot fire) *)
+     (lp_mmap p = true -> lp_native p = false) /\
+     (* the documented warnings, exactly when an mmap_mode is given and cannot be honoured ... *)
+     (lp_warn p = WCompressed <-> mmap = true /\ k <> KPlain) /\
+     (lp_warn p = WBytesIO <-> mmap = true /\ k = KPlain /\ s = SBytesIO) /\
+     (lp_warn p = WNotRaw <-> mmap = true /\ k = KPlain /\ s = SOtherObj) /\
+     (* ... except for an open raw file: silently a copy *)
+     (s = SRawFile -> k = KPlain -> lp_warn p = WNone /\ lp_mmap p = false)).
+Proof.
+  intros s mmap na k Hk native.
+  destruct k as [|c|]; cbn in Hk; try contradiction;
+  destruct s, mmap, na; unfold load_decide, validate_mmap, is_raw; cbn [negb andb]; rewrite ?Hk; cbn [negb];
+  (split; [split; [intros H; try discriminate H; auto | intros [H1 H2]; try discriminate; reflexivity]|]);
+  try (left; split; reflexivity);
+  right; eexists; (split; [reflexivity|]); cbn [lp_mmap lp_native lp_warn];
+  repeat match goal with |- _ /\ _ => split | |- _ <-> _ => split end;
+  try reflexivity; try discriminate; try tauto; try congruence;
+  try (intros H; decompose [and] H; try discriminate; try congruence; try tauto);
+  try (intros; split; reflexivity);
+  try (split; [reflexivity | discriminate]).
+Qed.
+
+(* a missing backing module (lz4) or an old compat file never reaches the unpickler *)
+Lemma load_decide_unavailable : forall s mmap na c, codec_available c = false ->
+  load_decide s mmap na (KCodec c) = Raise ValueError.
+Proof.
+  intros s mmap na c H. unfold load_decide. rewrite H. cbn [negb].
+  destruct (_ && mmap); reflexivity.
+Qed.
+
 (* ------------------------------------------------------------------ the hypotheses are satisfiable *)
 
 (* a toy codec family: the magic followed by the payload *)
